@@ -632,7 +632,7 @@ class CacheTrace:
         cur = None
         self.panic = any(k == "panic" for k, _ in toks)
         for k, val in toks:
-            if k in ("i", "g", "c", "l", "f"):
+            if k in ("i", "g", "c", "l", "f", "v"):
                 cur = {"op": k, "r": val, "o": {}, "extra": []}
                 self.steps.append(cur)
             elif cur is not None:
@@ -715,6 +715,22 @@ def cache_oracles(ctx, prop):
                 got = bytes(int(x) for x in p[1:]) if p[0] == "1" else None
                 if prop in ("C06", "C13") and got != obs.get(k):
                     bad.append("get(%d) and the following lookup disagree" % k)
+            elif f[0] == "v":
+                # typed lookup get_value::<Transaction>: the object decoded from exactly the stored bytes
+                k = int(f[1])
+                if prop == "C06":
+                    stored = obs.get(k)
+                    if stored is None:
+                        exp = "0"
+                    else:
+                        rr = R.run("transaction", stored, 0)
+                        if rr["ok"]:
+                            e = [x for x in rr["events"] if x[0] == 10][-1]
+                            exp = "1," + ",".join(str(x) for x in e[2:])
+                        else:
+                            exp = "2"
+                    if st["r"] != exp:
+                        bad.append("get_value::<Transaction>(%d) = %s, the stored bytes decode to %s (0 absent, 1,len,version,locktime,preimage windows,weight; 2 from_bytes panics)" % (k, st["r"], exp))
             elif f[0] == "c":
                 k = int(f[1])
                 if prop == "C13" and (st["r"] == "1") != (obs.get(k) is not None):
